@@ -61,6 +61,8 @@ type Scenario struct {
 	PauseAt     int      `json:"pauseAt"`
 	BounceSide  string   `json:"bounceSide"`  // "", "I", "R": that side's manager is stopped after BounceAt progress events, re-created on the same datastore, and restarts the channel
 	BounceAt    int      `json:"bounceAt"`
+	RestartSide string   `json:"restartSide"` // "", "I", "R": that side calls RestartDataTransferChannel (same process, no bounce) after RestartAt progress events
+	RestartAt   int      `json:"restartAt"`
 	Seed        int64    `json:"seed"`
 }
 
@@ -328,6 +330,7 @@ func runScenario(t *testing.T, s Scenario) Obs {
 	var dtMu sync.Mutex
 	var chid datatransfer.ChannelID
 	bounced := false
+	restarted := false
 	paused := false
 	forced := false
 	var wg sync.WaitGroup
@@ -421,6 +424,18 @@ func runScenario(t *testing.T, s Scenario) Obs {
 				dtMu.Unlock()
 				_ = m.PauseDataTransferChannel(ctx, chid)
 				_ = m.ResumeDataTransferChannel(ctx, chid)
+			})
+		}
+		if s.RestartSide == me && !restarted && p >= s.RestartAt {
+			restarted = true
+			app(func() {
+				dtMu.Lock()
+				m := dt1
+				if me == "R" {
+					m = dt2
+				}
+				dtMu.Unlock()
+				_ = m.RestartDataTransferChannel(ctx, chid)
 			})
 		}
 		if s.BounceSide == me && !bounced && p >= s.BounceAt {
